@@ -54,11 +54,11 @@ import (
 
 const (
 	allocBase = 64 << 20
-	allocSlack = 64 << 10 // measurement noise (runtime bookkeeping) is not a violation
+	allocSlack = 1 << 20 // measurement noise (runtime bookkeeping, ~0.2 MiB observed) is not a violation
 	allocBig  = 2 << 20 // see gcPolicy
 	// calls that allocate more than allocBig are slow here (page faults): after this many of them (quick /
 	// thorough) the rest of the job is skipped and reported through CapHit
-	allocCapQuick, allocCapThorough = 12, 96
+	allocCapQuick, allocCapThorough = 4, 32
 	hangAfter = 30 * time.Second
 )
 
@@ -508,7 +508,8 @@ type worker struct {
 	mu     sync.Mutex  // guards cmd against the watchdog
 	gcOff  bool        // start the next child with the collector off (see gcPolicy)
 	dirty  bool        // the running child has the collector off
-	killed atomic.Bool // set by the watchdog
+	cur    atomic.Value // string: the job being executed (diagnostics)
+	killed atomic.Bool  // set by the watchdog
 	since  atomic.Int64
 	last   [2]uint64
 }
@@ -587,6 +588,7 @@ func (w *worker) runJob(j job, onV func(vmsg)) (*rmsg, *event) {
 		w.start()
 	}
 	bs, _ := json.Marshal(j)
+	w.cur.Store(fmt.Sprintf("%s %s [%d,%d) since %s", j.T, j.F, j.Lo, j.Hi, time.Now().Format("15:04:05")))
 	w.in.Write(bs)
 	w.in.WriteByte('\n')
 	w.in.Flush()
@@ -626,11 +628,19 @@ var workers []*worker
 func watchdog(stop chan struct{}) {
 	tk := time.NewTicker(time.Second)
 	defer tk.Stop()
-	for {
+	for n := 1; ; n++ {
 		select {
 		case <-stop:
 			return
 		case <-tk.C:
+		}
+		if n%20 == 0 && os.Getenv("C16_TIMING") != "" {
+			fmt.Fprintf(os.Stderr, "-- %s jobs done %d\n", time.Now().Format("15:04:05"), atomic.LoadInt64(&jobsDone))
+			for _, w := range workers {
+				if s, _ := w.cur.Load().(string); s != "" {
+					fmt.Fprintf(os.Stderr, "   w%d idx=%d %s\n", w.slot, int64(atomic.LoadUint64(&w.cell[1])), s)
+				}
+			}
 		}
 		for _, w := range workers {
 			w.mu.Lock()
